@@ -391,6 +391,11 @@ class Harness:
         n = ok = pre = 0
         distinct = set()
         samples = []
+        for p in self.params:
+            if (c.self_shape if p == "self" else c.shapes.get(p)) is None:
+                # the function has a parameter the contract does not know (its signature changed): nothing can be run
+                return {"found": False, "evaluations": 0, "generated": 0, "rejected_by_requires": 0, "distinct": 0,
+                        "samples": [], "wall_s": 0.0, "note": f"no shape declared for parameter {p}: contract out of date"}
         while n < max_cases and time.time() - t0 < budget_s:
             n += 1
             inputs = {}
